@@ -176,6 +176,8 @@ pub const TARGETS: &[Target] = &[
     t!("Locale.fromParts", "SrcParse", LOCLIB, Some("Locale"), "from_parts", "Option Bytes → Option Bytes → Option Bytes → List Bytes → Option ExtMap → Locale", "UL.Locale.fromParts", &[], "Ops"),
     t!("Locale.intoParts", "SrcParse", LOCLIB, Some("Locale"), "into_parts", "Locale → Option Bytes × Option Bytes × Option Bytes × List Bytes × Bytes", "UL.Locale.intoParts", &[], "Ops"),
     t!("Locale.isMatch", "SrcParse", LOCLIB, Some("Locale"), "matches", "Locale → Locale → Bool → Bool → Bool", "UL.Locale.isMatch", &[], "Ops"),
+    t!("LangId.fromRawParts", "SrcParse", LIB, Some("LanguageIdentifier"), "from_raw_parts_unchecked", "Option Bytes → Option Bytes → Option Bytes → Option (List Bytes) → LangId", "(fun (l s r : Option UL.Bytes) (v : Option (List UL.Bytes)) => ({ language := l, script := s, region := r, variants := v } : UL.LangId))", &[], "Ops"),
+    t!("Locale.fromRawParts", "SrcParse", LOCLIB, Some("Locale"), "from_raw_parts_unchecked", "Option Bytes → Option Bytes → Option Bytes → Option (List Bytes) → ExtMap → Locale", "(fun (l s r : Option UL.Bytes) (v : Option (List UL.Bytes)) (e : UL.ExtMap) => ({ id := { language := l, script := s, region := r, variants := v }, ext := e } : UL.Locale))", &[], "Ops"),
     // ---- glue: FromStr / PartialEq<&str> / conversions (trait impls)
     t!("Language.fromStr", "SrcParse", LANG, Some("FromStr for Language"), "from_str", "Bytes → Res (Option Bytes)", "UL.Language.fromBytes", &[], "Glue"),
     t!("Script.fromStr", "SrcParse", SCRIPT, Some("FromStr for Script"), "from_str", "Bytes → Res Bytes", "UL.Script.fromBytes", &[], "Glue"),
@@ -201,6 +203,19 @@ pub const TARGETS: &[Target] = &[
     //      (their content is translated from the compiled crate, `Gen/Tables.lean`); `.unwrap()` and table indexing may
     //      panic, so these definitions return `Res`
     t!("Language.isEmpty", "SrcLikely", LANG, Some("Language"), "is_empty", "Option Bytes → Bool", "(fun (l : Option UL.Bytes) => Option.isNone l)", &[], "Likely"),
+    // ---- the integer forms of the subtags: `From<subtag> for u32 / u64 / Option<u64>` and `from_raw_unchecked`, from their own
+    //      source text (`u64::from_le_bytes(*s.all_bytes())` = `pack`, `TinyStrN::from_bytes_unchecked(v.to_le_bytes())` = `unpack`
+    //      are tinystr's contract); every `.into()` / `from_raw_unchecked(..)` call site below rests on these
+    t!("Language.toRaw", "SrcLikely", LANG, Some("From<Language> for Option<u64>"), "from", "Option Bytes → Option Nat", "(fun (l : Option UL.Bytes) => Option.map UL.pack l)", &[], "Raw"),
+    t!("Language.toRawRef", "SrcLikely", LANG, Some("From<&Language> for Option<u64>"), "from", "Option Bytes → Option Nat", "(fun (l : Option UL.Bytes) => Option.map UL.pack l)", &[], "Raw"),
+    t!("Script.toRaw", "SrcLikely", SCRIPT, Some("From<Script> for u32"), "from", "Bytes → Nat", "UL.pack", &[], "Raw"),
+    t!("Region.toRaw", "SrcLikely", REGION, Some("From<Region> for u32"), "from", "Bytes → Nat", "UL.pack", &[], "Raw"),
+    t!("Variant.toRaw", "SrcLikely", VARIANT, Some("From<Variant> for u64"), "from", "Bytes → Nat", "UL.pack", &[], "Raw"),
+    t!("Variant.toRawRef", "SrcLikely", VARIANT, Some("From<&Variant> for u64"), "from", "Bytes → Nat", "UL.pack", &[], "Raw"),
+    t!("Language.fromRaw", "SrcLikely", LANG, Some("Language"), "from_raw_unchecked", "Nat → Option Bytes", "(fun (v : Nat) => some (UL.unpack v))", &[], "Raw"),
+    t!("Script.fromRaw", "SrcLikely", SCRIPT, Some("Script"), "from_raw_unchecked", "Nat → Bytes", "UL.unpack", &[], "Raw"),
+    t!("Region.fromRaw", "SrcLikely", REGION, Some("Region"), "from_raw_unchecked", "Nat → Bytes", "UL.unpack", &[], "Raw"),
+    t!("Variant.fromRaw", "SrcLikely", VARIANT, Some("Variant"), "from_raw_unchecked", "Nat → Bytes", "UL.unpack", &[], "Raw"),
     t!("Likely.langFromParts", "SrcLikely", LIKELY, None, "lang_from_parts", "Option Nat × Option Nat × Option Nat → Option (Option Bytes) → Option Bytes → Option Bytes → Res (Option (Option Bytes × Option Bytes × Option Bytes))", "(fun (i : Option Nat × Option Nat × Option Nat) (lang : Option (Option UL.Bytes)) (script region : Option UL.Bytes) => match (lang.orElse fun _ => i.1.map fun s => some (UL.unpack s)) with | some l => UL.Res.ok (some (l, script.orElse (fun _ => i.2.1.map UL.unpack), region.orElse (fun _ => i.2.2.map UL.unpack))) | none => UL.Res.panic)", &[], "Likely"),
     t!("Likely.maximize", "SrcLikely", LIKELY, None, "maximize", "Tables → Option Bytes → Option Bytes → Option Bytes → Res (Option (Option Bytes × Option Bytes × Option Bytes))", "UL.Likely.maximize", &[], "Likely"),
     t!("Likely.minimize", "SrcLikely", LIKELY, None, "minimize", "Tables → Option Bytes → Option Bytes → Option Bytes → Res (Option (Option Bytes × Option Bytes × Option Bytes))", "UL.Likely.minimize", &[], "Likely"),
